@@ -1,6 +1,7 @@
 package govc
 
 import (
+	"context"
 	"encoding/json"
 	"fmt"
 	"os"
@@ -34,6 +35,7 @@ type OblResult struct {
 	ok         bool
 	obl        *Obligation
 	res        SolveResult
+	model      []string
 }
 
 // propPackages finds the repo packages whose contract files mention the property.
@@ -172,7 +174,11 @@ func RunCheck(o CheckOpts) int {
 				results[i] = r
 				return
 			}
-			res := Solve(dir, fmt.Sprintf("%d_%s", i, id), q, timeout, false)
+			to := timeout
+			if ob.Kind == "cover" {
+				to = 2 * time.Second
+			}
+			res := Solve(dir, fmt.Sprintf("%d_%s", i, id), q, to, false)
 			r.Status, r.Backend, r.Ms, r.res = res.Status, res.Backend, res.Ms, res
 			if ob.Kind == "cover" {
 				r.ok = res.Status != "unsat"
@@ -218,11 +224,22 @@ func RunCheck(o CheckOpts) int {
 			continue
 		}
 		nViol++
+		if r.Status == "sat" || r.Status == "unknown" {
+			r.model = modelOf(dir, w, r)
+		}
 		path := writeReplay(o, w, r)
 		suffix := " no-failing-input-found"
 		violations = append(violations, fmt.Sprintf("VIOLATION property=%s replay=%s%s", o.Prop, path, suffix))
 		if o.Verbose {
 			fmt.Printf("  FAILED %s [%s] %s :: %s\n", r.ID, r.Status, r.Kind, r.Clause)
+			if r.Status == "error" {
+				fmt.Println("      " + firstLines(r.res.Output, 4))
+			}
+			if os.Getenv("GOVC_MODEL") != "" {
+				for _, l := range r.model {
+					fmt.Println("      " + l)
+				}
+			}
 		}
 	}
 	if o.Verbose {
@@ -325,6 +342,7 @@ func writeReplay(o CheckOpts, w *World, r *OblResult) string {
 		"status":     r.Status,
 		"backend":    r.Backend,
 		"solver_output": r.res.Output,
+		"model":      r.model,
 		"replayed":   false,
 	}
 	data, _ := json.MarshalIndent(rep, "", " ")
@@ -368,4 +386,47 @@ func (k *KnownFindings) Match(prop, oblID string) *KnownFinding {
 		}
 	}
 	return nil
+}
+
+// modelOf asks a solver for the values of the named program values in a failed obligation.
+func modelOf(dir string, w *World, r *OblResult) []string {
+	ob := r.obl
+	if ob.enc == nil {
+		return nil
+	}
+	var names []string
+	for _, l := range ob.enc.script[:ob.Cut] {
+		if strings.HasPrefix(l, "(declare-fun ") || strings.HasPrefix(l, "(define-fun ") {
+			f := strings.Fields(l)
+			n := f[1]
+			if strings.HasPrefix(n, "p.") || strings.HasPrefix(n, "v.") || strings.HasPrefix(n, "fv.") || strings.HasPrefix(n, "ret.") || strings.HasPrefix(n, "next.") {
+				if strings.Contains(l, "(Array") {
+					continue
+				}
+				names = append(names, n)
+			}
+		}
+	}
+	if len(names) == 0 {
+		return nil
+	}
+	q := ob.Query(w) + "(get-value (" + strings.Join(names, " ") + "))\n"
+	file := filepath.Join(dir, "model_"+mangle(r.ID)+".smt2")
+	os.WriteFile(file, []byte("(set-option :produce-models true)\n"+q), 0o644)
+	res := runSolver(context.Background(), Solvers[0], file, 10*time.Second)
+	if res.Status != "sat" && res.Status != "unknown" {
+		os.WriteFile(file, []byte("(set-option :produce-models true)\n(set-logic ALL)\n"+q), 0o644)
+		res = runSolver(context.Background(), Solvers[1], file, 10*time.Second)
+	}
+	var out []string
+	for _, l := range strings.Split(res.Output, "\n")[1:] {
+		l = strings.TrimSpace(l)
+		if l != "" {
+			out = append(out, l)
+		}
+	}
+	if len(out) > 200 {
+		out = out[:200]
+	}
+	return out
 }
